@@ -73,3 +73,21 @@ func VerifStoredLease(c *Core, physKey string) (issue, expire time.Time, irrevoc
 	r, _ := le.renewable()
 	return le.IssueTime, le.ExpireTime, le.RevokeErr != "", r, true
 }
+
+// VerifNamespaceRootToken mints the root token of a namespace the way
+// generate-root does (TokenStore.rootToken in the namespace's context).
+func VerifNamespaceRootToken(c *Core, nsPath string) (string, error) {
+	ctx := namespace.RootContext(context.Background())
+	ns, err := c.namespaceStore.GetNamespaceByPath(ctx, nsPath)
+	if err != nil {
+		return "", err
+	}
+	if ns == nil {
+		return "", namespace.ErrNoNamespace
+	}
+	te, err := c.tokenStore.rootToken(namespace.ContextWithNamespace(ctx, ns))
+	if err != nil {
+		return "", err
+	}
+	return te.ExternalID, nil
+}
